@@ -1,6 +1,6 @@
 (* Family dispatch: the single entry point of the extracted model. *)
 From Coq Require Import ZArith List Bool.
-From UV Require Import Verdict PositJudge FixpntModel IntegerModel LnsModel CfloatModel ArealModel QuireModel SqrtModel Ops TextModel ElasticModel EFTModel DDModel.
+From UV Require Import Verdict PositJudge FixpntModel IntegerModel LnsModel CfloatModel ArealModel QuireModel SqrtModel Ops TextModel ElasticModel EFTModel DDModel LimitsModel.
 Import ListNotations.
 Local Open Scope Z_scope.
 Definition FAM_posit : Z := 1.
@@ -12,6 +12,7 @@ Definition FAM_integer : Z := 4.
 Definition FAM_lns : Z := 5.
 Definition judge (fam : Z) (cfg : list Z) (op : Z) (args res : list Z) : verdict :=
   if Z.leb OP_hexfmt op && Z.leb op OP_streamfmt && Z.ltb fam 11 then judge_text fam cfg op args res else
+  if Z.eqb op OP_limits then judge_limits fam cfg res else
   if Z.eqb fam FAM_posit then judge_posit cfg op args res else
   if Z.eqb fam FAM_cfloat then (if Z.eqb op OP_gen_two_sum then judge_gen_two_sum cfg args res else if Z.eqb op OP_sqrt then judge_sqrt_cfloat cfg args res else judge_cfloat cfg op args res) else
   if Z.eqb fam FAM_areal then judge_areal cfg op args res else
